@@ -227,7 +227,7 @@ PROPS = {
         vfiles=["Props/C04"],
         technique="Coq proof: the COBS decoder model (crate automaton with bounded destination) only outputs bytes, the length guards discharge every checked index, accepted frames satisfy wf_frame; CAN side via the arithmetic layout theorem; correspondence on malformed byte strings and all driver frame shapes",
         level_text="Theorems C04_usart_total (every byte string of any length: value or error, never a panic; accepted frames are well-formed), C04_can_total (every driver-"
-                   "constructible CAN frame), C04_reencode (a well-formed frame re-encodes for both links and enters reassembly without a panic).",
+                   "constructible CAN frame), C04_reencode (a well-formed frame re-encodes for both links and enters reassembly without a panic), C04_checker_accepts_model(_can) (the extracted checkers provably accept the model's observations).",
         level_note=NOTE_COMMON + " The cobs crate is modelled by hand (Model/Cobs.v) and exercised through the codec by the streams.",
         streams=[dict(USD, view="view_C04_USD", ok="ok_C04_USD"), dict(CAD, view="view_C04_CAD", ok="ok_C04_CAD")],
         rule=RULE_USD + "; " + RULE_CAD,
@@ -237,7 +237,7 @@ PROPS = {
         vfiles=["Props/C08"],
         technique="Coq proof: shifts/masks rewritten to div/mod (N.shiftr_div_pow2, N.land_ones, disjoint lor = +), flag x nibble combinations by a 128-point vm_compute sweep lifted with forallb_forall, lia; correspondence on all 8192 upper-bit patterns",
         level_text="Theorems C08_encode_layout (identifier = ne*2^28+st*2^27+mf*2^26+(id/256)*2^16+addr, extended data frame, payload = data bytes), C08_decode_layout (for every "
-                   "driver-constructible frame the decoder equals the arithmetic layout), C08_reserved_ignored, C08_rejects, C08_roundtrip (for every fragment-shaped frame).",
+                   "driver-constructible frame the decoder equals the arithmetic layout), C08_reserved_ignored, C08_rejects, C08_roundtrip (for every fragment-shaped frame), C08_checker_accepts_model_encode/_decode.",
         level_note=NOTE_COMMON,
         streams=[dict(CAE, view="view_C08_CAE", ok="ok_C08_CAE"), dict(CAD, view="view_C08_CAD", ok="ok_C08_CAD")],
         rule=RULE_FR + "; " + RULE_CAD,
@@ -246,7 +246,7 @@ PROPS = {
         vfiles=["Props/C09"],
         technique="Coq proof: COBS round trip by induction over the input generalised over the current run and block-boundary state; header bits by a 128-point sweep; layout and size-mismatch theorems; correspondence on generated frames and COBS-encoded bodies",
         level_text="Theorems C09_layout, C09_roundtrip (decode(encode f) = f, no zero byte, length = dlen + 6), C09_length_bound (<= 14), C09_decode_all (every 5..13-byte body), "
-                   "C09_size_mismatch, C09_cobs_roundtrip.",
+                   "C09_size_mismatch, C09_cobs_roundtrip, C09_checker_accepts_model_encode/_decode.",
         level_note=NOTE_COMMON + " The cobs crate is modelled by hand (Model/Cobs.v).",
         streams=[dict(USE, view="view_C09_USE", ok="ok_C09_USE"), dict(USD, view="view_C09_USD", ok="ok_C09_USD")],
         rule=RULE_FR + "; " + RULE_USD,
